@@ -39,7 +39,8 @@ namespace
     if(a.dims != b.dims || a.pos != b.pos || a.vals.size() != b.vals.size()) return false;
     for(size_t k = 0; k < a.vals.size(); ++k)
     {
-      if(tol == 0.0L) { if(a.vals[k] != b.vals[k]) return false; }
+      if(a.vals[k] == 0.0L) { if(b.vals[k] != 0.0L || std::signbit(a.vals[k]) != std::signbit(b.vals[k])) return false; }
+      else if(tol == 0.0L) { if(a.vals[k] != b.vals[k]) return false; }
       else if(std::fabs(a.vals[k] - b.vals[k]) > tol * std::fabs(a.vals[k])) return false;
     }
     return true;
@@ -247,7 +248,7 @@ namespace
   }
 
   template<typename MK_, typename MKX_>
-  void run_variant(verif::Ctx& c, Index v, bool rnd, const Caps& caps, const std::string& kind, bool eq_safe)
+  void run_variant(verif::Ctx& c, Index v, int rnd, const Caps& caps, const std::string& kind, bool eq_safe)
   // NOLINT
   {
     typedef typename MK_::Type C;
@@ -260,6 +261,9 @@ namespace
     C xn = MK_::make((v + 1) % MK_::count(c.thorough), rnd, dn); // a second object for the two-in-one-stream test
     VFP fn = vfp(xn);
     SerialConfig cfg(false, false);
+    const bool exact = (rnd == 0), extreme = (rnd >= 2);
+    // narrowing (double container -> float serialisation / float container) only when the values are representable
+    const bool narrow_ok = exact || std::is_same<typename C::DataType, float>::value;
     const Index fstride = c.thorough ? 4 : 16; // real files for every fstride-th variant
     // classification of the input w.r.t. the probed defect classes
     const bool no_arrays = !f0.has_data() && f0.e.empty() && f0.i.empty() && f0.sidx.size() >= 3 && kind.find("SparseMatrix") != std::string::npos && kind.find("Banded") == std::string::npos;
@@ -277,13 +281,13 @@ namespace
     if(skip_binary) c.excluded("binary modes of a container holding a size-0 array (reported once as finding)");
     if(next_null && hz.null_array != 0) { xn = MK_::make(v, rnd, dn); fn = vfp(xn); } // keep the two-in-one-stream test alive
 
-    if(!rnd && !skip_binary)
+    if((exact || extreme) && !skip_binary)
     {
       // ---- binary container format with every serialisation type pair
       op(c, kind + " serialize<double,u64>", [&]{ serialize_pair<double, std::uint64_t>(c, x, f0, kind, "double,u64", eq_safe); });
-      op(c, kind + " serialize<float,u64>", [&]{ serialize_pair<float, std::uint64_t>(c, x, f0, kind, "float,u64", eq_safe); });
+      if(narrow_ok) op(c, kind + " serialize<float,u64>", [&]{ serialize_pair<float, std::uint64_t>(c, x, f0, kind, "float,u64", eq_safe); });
       op(c, kind + " serialize<double,u32>", [&]{ serialize_pair<double, std::uint32_t>(c, x, f0, kind, "double,u32", eq_safe); });
-      op(c, kind + " serialize<float,u32>", [&]{ serialize_pair<float, std::uint32_t>(c, x, f0, kind, "float,u32", eq_safe); });
+      if(narrow_ok) op(c, kind + " serialize<float,u32>", [&]{ serialize_pair<float, std::uint32_t>(c, x, f0, kind, "float,u32", eq_safe); });
       op(c, kind + " ctor(std::vector<char>)", [&]{
         std::vector<char> buf = x.serialize(cfg);
         C y(buf);
@@ -319,9 +323,12 @@ namespace
           c.check(vfp(y2) == fn, kind + " stringstream " + ms + " second object in the same stream", [&]{ return vfp(y2).str() + " expected " + fn.str(); });
           if(eq_safe) c.check(x == y, kind + " stringstream " + ms + " operator== false", "");
           // cross type read of the same bytes
-          std::stringstream s2(bytes);
-          CX z; z.read_from(mode, s2);
-          c.check(vfp(z) == f0, kind + " cross-type read " + ms, [&]{ return vfp(z).str() + " expected " + f0.str(); });
+          if(narrow_ok)
+          {
+            std::stringstream s2(bytes);
+            CX z; z.read_from(mode, s2);
+            c.check(vfp(z) == f0, kind + " cross-type read " + ms, [&]{ return vfp(z).str() + " expected " + f0.str(); });
+          }
           // write(read(write)) is byte identical
           std::stringstream s3;
           y.write_out(mode, s3); y2.write_out(mode, s3);
@@ -345,15 +352,18 @@ namespace
         C y(FileMode::fm_binary, fn1);
         c.check(vfp(y) == f0, kind + " file fm_binary", [&]{ return vfp(y).str() + " expected " + f0.str(); });
         x.write_out(caps.own, fn1);
-        CX z; z.read_from(caps.own, fn1);
-        c.check(vfp(z) == f0, kind + " file own mode cross-type", [&]{ return vfp(z).str() + " expected " + f0.str(); });
+        if(narrow_ok)
+        {
+          CX z; z.read_from(caps.own, fn1);
+          c.check(vfp(z) == f0, kind + " file own mode cross-type", [&]{ return vfp(z).str() + " expected " + f0.str(); });
+        }
         unlink(fn1.c_str());
         c.count("file_round_trips", 2);
       });
     }
 
     // ---- text modes
-    const long double tol = rnd ? 5.01e-7L : 0.0L;
+    const long double tol = exact ? 0.0L : 5.01e-7L; // printed precision: 7 significant digits
     auto text_rt = [&](FileMode mode, const char* ms)
     {
       std::stringstream ss;
@@ -365,7 +375,7 @@ namespace
       std::stringstream s2;
       y.write_out(mode, s2);
       c.check(s2.str() == t1, kind + " " + ms + " write(read(write)) not byte-identical", [&]{ return "first=" + t1.substr(0, 200) + " second=" + s2.str().substr(0, 200); });
-      if(!rnd)
+      if(exact)
       {
         std::stringstream s3(t1);
         CX z; z.read_from(mode, s3);
@@ -395,7 +405,7 @@ namespace
 
   // CSR specials: symmetric MatrixMarket; BCSR written as MatrixMarket read by CSR
   template<typename DT_, typename IT_>
-  void csr_symmetric(verif::Ctx& c, Index n, uint64_t lowmask, const std::string& kind)
+  void csr_symmetric(verif::Ctx& c, Index n, uint64_t lowmask, const std::string& kind, int alph)
   {
     // symmetric pattern from the lower triangle incl. diagonal
     uint64_t mask = 0; Index b = 0;
@@ -404,7 +414,7 @@ namespace
     std::vector<uint64_t> rp(n + 1, 0), ci; std::vector<double> va;
     for(Index i = 0; i < n; ++i)
     {
-      for(Index j = 0; j < n; ++j) if(mask & (uint64_t(1) << (i * n + j))) { ci.push_back(j); va.push_back(pv(std::min(i, j) * n + std::max(i, j), 11)); }
+      for(Index j = 0; j < n; ++j) if(mask & (uint64_t(1) << (i * n + j))) { ci.push_back(j); va.push_back(aval<DT_>(alph, std::min(i, j) * n + std::max(i, j), 11)); }
       rp[i + 1] = ci.size();
     }
     auto vci = mkiv<IT_, IT_>(ci); auto vva = mkdv<DT_, IT_>(va); auto vrp = mkiv<IT_, IT_>(rp);
@@ -413,21 +423,23 @@ namespace
     x.write_out(FileMode::fm_mtx, ss, true);
     const std::string t1 = ss.str();
     SparseMatrixCSR<DT_, IT_> y(FileMode::fm_mtx, ss);
-    c.check(vfp(y) == vfp(x), kind + " fm_mtx symmetric read back differs", [&]{ return vfp(y).str() + " expected " + vfp(x).str() + " text=" + t1; });
+    c.check(sem_equal(sem(x), sem(y), alph == 0 ? 0.0L : 5.01e-7L), kind + " fm_mtx symmetric read back differs", [&]{ return vfp(y).str() + " expected " + vfp(x).str() + " text=" + t1; });
+    std::stringstream s2; y.write_out(FileMode::fm_mtx, s2, true);
+    c.check(s2.str() == t1, kind + " fm_mtx symmetric write(read(write)) not byte-identical", "");
     c.count("text_round_trips");
   }
 
   template<typename DT_, typename IT_, int BH_, int BW_>
-  void bcsr_mtx(verif::Ctx& c, Index v, const std::string& kind)
+  void bcsr_mtx(verif::Ctx& c, Index v, const std::string& kind, int alph)
   {
     std::string d;
-    auto x = MakeBCSR<DT_, IT_, BH_, BW_>::make(v, false, d);
+    auto x = MakeBCSR<DT_, IT_, BH_, BW_>::make(v, alph, d);
     if(x.row_ptr() == nullptr && x.rows() > 0 && hz.mtx_bcsr != 0) { c.excluded("fm_mtx of an array-free matrix with rows (reported once as finding)"); return; }
     std::stringstream ss;
     x.write_out(FileMode::fm_mtx, ss);
     SparseMatrixCSR<DT_, IT_> y(FileMode::fm_mtx, ss);
     Sem s0 = sem(x), s1 = sem(y);
-    c.check(sem_equal(s0, s1, 0.0L), kind + " fm_mtx written by BCSR, read by CSR", [&]{ return "got " + s1.str() + " expected " + s0.str(); });
+    c.check(sem_equal(s0, s1, alph == 0 ? 0.0L : 5.01e-7L), kind + " fm_mtx written by BCSR, read by CSR", [&]{ return "got " + s1.str() + " expected " + s0.str(); });
     c.count("text_round_trips");
   }
 
@@ -515,15 +527,22 @@ namespace
   {
     const std::string kind = std::string(MK_::name()) + "<" + types + ">";
     const Index n = MK_::count(c.thorough);
-    for(Index v = 0; v < n; ++v) for(int rnd = 0; rnd < 2; ++rnd)
+    for(Index v = 0; v < n; ++v)
     {
-      if(rnd && !(caps.mtx_rw || caps.exp_rw)) continue;
-      if(!c.want()) continue;
-      std::string d;
-      c.desc([&]{ std::string dd; (void)MK_::make(v, false, dd); return kind + " variant " + std::to_string(v) + ": " + dd + (rnd ? " (rounding values)" : ""); });
-      (void)eq_safe_degenerate;
-      run_variant<MK_, MKX_>(c, v, rnd != 0, caps, kind, true);
-      c.outcome(MK_::name());
+      // alphabets: exact; rounding (text kinds only); extreme with every offset for the first 40 variants (so that every
+      // extreme value meets every small shape) and with one variant-dependent offset for the others
+      std::vector<int> alphs; alphs.push_back(0);
+      if(caps.mtx_rw || caps.exp_rw) alphs.push_back(1);
+      if(v < 40) { for(uint64_t o = 0; o < NX; ++o) alphs.push_back(int(2 + o)); }
+      else alphs.push_back(int(2 + (v * 7) % NX));
+      for(int rnd : alphs)
+      {
+        if(!c.want()) continue;
+        c.desc([&]{ std::string dd; (void)MK_::make(v, 0, dd); return kind + " variant " + std::to_string(v) + ": " + dd + alph_name(rnd); });
+        (void)eq_safe_degenerate;
+        run_variant<MK_, MKX_>(c, v, rnd, caps, kind, true);
+        c.outcome(MK_::name());
+      }
     }
   }
 }
@@ -532,7 +551,7 @@ int main(int argc, char** argv)
 {
   Runtime::ScopeGuard guard(argc, argv);
   verif::Spec spec; spec.property = "C05"; spec.harness = "c05_roundtrip";
-  spec.rule = "one case per (container kind, type pair, variant, value alphabet); variants enumerate every length / shape / sparsity pattern / offset subset / used-row subset of the bound, "
+  spec.rule = "one case per (container kind, type pair, variant, value alphabet: exact / rounding / extreme with offset); variants enumerate every length / shape / sparsity pattern / offset subset / used-row subset of the bound, "
     "simplest first, incl. default-constructed, size-0, entry-free (array-free) and arrays-without-entries forms; Pack: one case per (value type, pack type, count 0..9, swap). "
     "Non-trivial: every case (hashed by kind and the fingerprint of the built container); trivial containers without arrays are included on purpose.";
   spec.bounds_quick = "DenseVector len<=9; DVBlocked<2>,<3> blocks<=4; SparseVector size<=4 all index subsets (+4 insertion-built); SVBlocked<2> size<=3; DenseMatrix<=3x3; "
@@ -541,7 +560,8 @@ int main(int argc, char** argv)
   spec.bounds_thorough = "as quick plus DenseVector len<=17, blocks<=7, SparseVector size<=5, DenseMatrix<=4x4, CSR 4x3 (4095 patterns) and 4x4 (65535 patterns), BCSR block patterns<=3x3, Banded 4x4, CSCR<=3x3";
   spec.assumptions = {
     "oracle = fingerprints (sizes, scalar_index, scalar_dt, every raw array) read directly from the containers; text modes compare dimensions, pattern and values",
-    "exact alphabet k/8 (|k|<=23) is representable in float and prints exactly with 7 significant digits; the rounding alphabet is compared with relative tolerance 5.01e-7 (printed precision)",
+    "exact alphabet k/8 (|k|<=23) is representable in float and prints exactly with 7 significant digits; the rounding and the extreme alphabet are compared with relative tolerance 5.01e-7 (all text writers print 7 significant digits, std::scientific default precision) and zeros with their sign; binary modes are compared bitwise",
+    "extreme alphabet (36 values): +-{DBL_MAX/2, 1e300, 1e100, 9.9999995e99, 9.999999e99, 7.5e99, 1e99, 1e-99, 1.5e-99, 9.9999995e-100, 7.5e-100, 1e-100, 1e-300, DBL_MIN, 1e-310 and 4.94e-324 (denormal), 1, 0}; for float +-{FLT_MAX/2, 1e38, 1e30, 1.5e10, 1e-30, 1e-37, FLT_MIN, 1e-40 and 1.4e-45 (denormal), 1, 0}; every offset for the first 40 variants of each kind, one offset otherwise; narrowing serialisation pairs / cross-type reads are skipped for it on double containers",
     "zlib/zfp compression modes are not available in this build (no third-party libraries) and are not exercised",
     "excluded: reading a container with a mismatching container kind; fm_mtx of array-free matrices with rows (see exclusions counter)"};
   spec.max_samples = 10;
@@ -685,9 +705,14 @@ int main(int argc, char** argv)
     for(Index n = 1; n <= (c.thorough ? 4u : 3u); ++n) for(uint64_t lm = 1; lm < (uint64_t(1) << (n * (n + 1) / 2)); ++lm)
     {
       if(!c.want()) continue;
-      c.desc([&]{ return "CSR symmetric fm_mtx n=" + std::to_string(n) + " lower mask " + std::to_string(lm); });
-      csr_symmetric<double, u64>(c, n, lm, "SparseMatrixCSR<double,u64>");
-      csr_symmetric<float, u32>(c, n, lm, "SparseMatrixCSR<float,u32>");
+      c.desc([&]{ return "CSR symmetric fm_mtx n=" + std::to_string(n) + " lower mask " + std::to_string(lm) + " (exact values and extreme values)"; });
+      csr_symmetric<double, u64>(c, n, lm, "SparseMatrixCSR<double,u64>", 0);
+      csr_symmetric<float, u32>(c, n, lm, "SparseMatrixCSR<float,u32>", 0);
+      for(uint64_t o = 0; o < (n <= 2 ? NX : 1); ++o)
+      {
+        csr_symmetric<double, u64>(c, n, lm, "SparseMatrixCSR<double,u64>", int(2 + (n <= 2 ? o : lm % NX)));
+        csr_symmetric<float, u32>(c, n, lm, "SparseMatrixCSR<float,u32>", int(2 + (n <= 2 ? o : lm % NX)));
+      }
       c.nontrivial(verif::Hash().str("sym").pod(n).pod(lm).get());
       c.outcome("csr-symmetric");
     }
@@ -696,8 +721,13 @@ int main(int argc, char** argv)
     {
       if(!c.want()) continue;
       c.desc([&]{ std::string d; (void)MakeBCSR<double, u64, 2, 2>::make(v, false, d); return "BCSR fm_mtx -> CSR: " + d; });
-      bcsr_mtx<double, u64, 2, 2>(c, v, "SparseMatrixBCSR<2,2>");
-      bcsr_mtx<float, u32, 2, 3>(c, v, "SparseMatrixBCSR<2,3>");
+      bcsr_mtx<double, u64, 2, 2>(c, v, "SparseMatrixBCSR<2,2>", 0);
+      bcsr_mtx<float, u32, 2, 3>(c, v, "SparseMatrixBCSR<2,3>", 0);
+      for(uint64_t o = 0; o < (v < 14 ? NX : 1); ++o)
+      {
+        bcsr_mtx<double, u64, 2, 2>(c, v, "SparseMatrixBCSR<2,2>", int(2 + (v < 14 ? o : v % NX)));
+        bcsr_mtx<float, u32, 2, 3>(c, v, "SparseMatrixBCSR<2,3>", int(2 + (v < 14 ? o : v % NX)));
+      }
       c.nontrivial(verif::Hash().str("bcsrmtx").pod(v).get());
       c.outcome("bcsr-mtx");
     }
